@@ -3,6 +3,7 @@ import Infretis.Lemmas.RepexC05Load
 import Infretis.Lemmas.RepexC03RRestore
 import Infretis.Lemmas.RepexC05Family
 import Infretis.Lemmas.PermSort
+import Infretis.Lemmas.RepexC05Chain
 /-!
 # C05 — the sampler never stalls: a job can always be drawn, sorting terminates
 
@@ -853,6 +854,354 @@ example : EvCv [0, 2, 4] (exRAt 3) (.step 0 .acc [[1, 1, 0]] { t := 2, e := 2 })
   refine ⟨fun hneg => by simp only [hj] at hneg; omega, fun _ => ?_⟩
   refine ⟨[-1, 1, 3, -1], [false, false], none, [1, 1, 0], by decide, by decide, ?_⟩
   show ([1, 1, 0] : List Rat) = ratVec [1, 1, 0]
+  decide +kernel
+
+
+/-! ## G. Extension: the family hypothesis from ORDER SEQUENCES, wire fencing included
+
+Model additions of this section live in `Infretis/Model/RepexCv.lean` (own file of this package; the C05 driver runs
+them: ops `cvfam`, `cvload`, `mumat`), lemmas in `Infretis/Lemmas/RepexC05Cv.lean`, `RepexC05Chain.lean`. -/
+
+open Infretis.RepexCv Infretis.Repex.Cv
+
+/-- **Exactly when `calc_cv_vector` is in C02's family**: iff its positive entries have NO HOLE — whenever the entry
+    of a higher ensemble `j` is positive (`EntryPos`: shooting `λ_j ≤ max(order)`; wire fencing
+    `0 < weight λ_j cap ops`, a frame inside `[λ_j, cap)` on a valid sub-path) the entry of every lower ensemble
+    `k < j` is positive too.  For every order sequence, every interface list, any mix of shooting and wire-fencing
+    ensembles, with or without `interface_cap`. -/
+theorem cv_vector_family_iff (n : Nat) (e : Int) (he : 0 ≤ e) (ops intfs : List Int) (mv : List Bool)
+    (cap : Option Int) (ws : List Nat) (hn : n = intfs.length + 1)
+    (h : WF.cvVector ops intfs mv cap = .ok ws) :
+    ∃ pmax ilast, WF.maxOf ops = some pmax ∧ intfs.getLast? = some ilast ∧
+      (VecOk n e (ratVec ws) ↔ NoHole ops intfs mv (cap.getD ilast) pmax) :=
+  cvVector_vecOk_iff n e he ops intfs mv cap ws hn h
+
+/-- both sides of `cv_vector_family_iff` occur: the shooting vector of section F is in the family, the hole vector
+    `(1,0,1,0)` is not (entry 2 positive, wire-fencing entry 1 not) -/
+example : WF.cvVector [-1, 1, 7, -1] [0, 2, 4, 6] [false, true, false] none = .ok [1, 0, 1, 0]
+    ∧ ¬ NoHole [-1, 1, 7, -1] [0, 2, 4, 6] [false, true, false] 6 7
+    ∧ WF.cvVector [-1, 1, 3, 5, 7, -1] [0, 2, 4, 6] [false, true, false] none = .ok [1, 2, 1, 0] := by
+  refine ⟨by decide, ?_, by decide⟩
+  intro h
+  have := h 1 2 2 4 true false (by decide) (by decide) rfl rfl rfl rfl
+    (by unfold EntryPos; decide)
+  revert this
+  unfold EntryPos
+  decide
+
+/-- **A wire-fencing band that is not jumped over has positive weight**: a path that starts below `l`, reaches `l`,
+    ends outside `[l, r)` and has no MD step from below `l` to at/above `r` has a frame inside `[l, r)` on a valid
+    sub-path — `wirefence_weight_and_pick` returns a positive weight. -/
+theorem wf_weight_positive_without_jump (l r : Int) (hlr : l ≤ r) (ops : List Int) (first last pmax : Int)
+    (hf : ops.head? = some first) (hfl : first < l)
+    (hl : ops.getLast? = some last) (hout : last < l ∨ r ≤ last)
+    (hmax : WF.maxOf ops = some pmax) (hreach : l ≤ pmax) (hnj : noJumpUp l r ops = true) :
+    0 < WF.weight l r ops :=
+  weight_pos_of_noJump l r hlr ops first last pmax hf hfl hl hout hmax hreach hnj
+
+example : noJumpUp 2 6 [-1, 1, 3, 7, -1] = true ∧ WF.weight 2 6 [-1, 1, 3, 7, -1] = 1
+    ∧ noJumpUp 2 6 [-1, 1, 7, -1] = false ∧ WF.weight 2 6 [-1, 1, 7, -1] = 0 := by decide
+
+/-- **The family hypothesis from a condition on order sequences** (`noJumpCfg`, decidable, the driver evaluates it):
+    strictly increasing interfaces, wire-fencing interfaces at or below the cap (`CapOk`), a path that starts below
+    `λ_0`, ends below `λ_0` or at/above the cap, and never steps from below a wire-fencing interface `λ_k` to at/above
+    the cap.  Then `calc_cv_vector` is in C02's family, and entry `k` is non-zero exactly when `λ_k ≤ max(order)` —
+    in particular the own-ensemble weight `add_traj` asserts on is non-zero for a path that crosses its interface. -/
+theorem cv_vector_family_of_no_jump (n : Nat) (e : Int) (he : 0 ≤ e) (c : CvCfg) (ops : List Int) (ws : List Nat)
+    (hn : n = c.intfs.length + 1) (hs : c.intfs.Pairwise (· < ·)) (hcap : CapOk c)
+    (hnj : noJumpCfg c ops = true) (h : WF.cvVector ops c.intfs c.mv c.cap = .ok ws) :
+    VecOk n e (ratVec ws) ∧ ∃ pmax, WF.maxOf ops = some pmax ∧
+      ∀ (k : Nat) (lam : Int), k + 1 < c.intfs.length → c.intfs[k]? = some lam →
+        ∃ w, ws[k]? = some w ∧ (0 < w ↔ lam ≤ pmax) :=
+  cvVector_vecOk_of_noJump n e he c ops ws hn hs hcap hnj h
+
+def exCfg : CvCfg := { intfs := [0, 2, 4, 6], mv := [false, true, false], cap := none }
+
+theorem exCfg_capOk : CapOk exCfg := by
+  intro k lam hk hlam hm
+  have : k = 0 ∨ k = 1 ∨ k = 2 := by simp [exCfg] at hk; omega
+  rcases this with rfl | rfl | rfl
+  · simp [exCfg] at hm
+  · simp [exCfg] at hlam; subst hlam; decide
+  · simp [exCfg] at hm
+
+example : noJumpCfg exCfg [-1, 1, 3, 5, 7, -1] = true ∧ exCfg.intfs.Pairwise (· < ·) ∧ CapOk exCfg
+    ∧ WF.cvVector [-1, 1, 3, 5, 7, -1] exCfg.intfs exCfg.mv exCfg.cap = .ok [1, 2, 1, 0] :=
+  ⟨by decide, by decide, exCfg_capOk, by decide⟩
+
+/-- **The boundary**: a vector outside the family needs an order sequence that violates the condition (with legal
+    ends: an MD step from below a wire-fencing interface to at/above the cap) — the hole vectors of the open
+    finding are exactly on the other side of `cv_vector_family_of_no_jump`. -/
+theorem cv_vector_hole_needs_jump (n : Nat) (e : Int) (he : 0 ≤ e) (c : CvCfg) (ops : List Int) (ws : List Nat)
+    (hn : n = c.intfs.length + 1) (hs : c.intfs.Pairwise (· < ·)) (hcap : CapOk c)
+    (h : WF.cvVector ops c.intfs c.mv c.cap = .ok ws) (hbad : ¬ VecOk n e (ratVec ws)) :
+    noJumpCfg c ops = false :=
+  cvVector_hole_has_jump n e he c ops ws hn hs hcap h hbad
+
+example : noJumpCfg exCfg [-1, 1, 7, -1] = false
+    ∧ WF.cvVector [-1, 1, 7, -1] exCfg.intfs exCfg.mv exCfg.cap = .ok [1, 0, 1, 0] := by decide
+
+/-- a bound on the MD step gives the no-jump condition for a band: steps of at most the band width `r - l` -/
+theorem no_jump_of_step_bound (l r : Int) (ops : List Int)
+    (h : ∀ (pre : List Int) (a b : Int) (suf : List Int), ops = pre ++ a :: b :: suf → b - a ≤ r - l) :
+    noJumpUp l r ops = true :=
+  noJumpUp_of_step_bound l r ops h
+
+example : noJumpUp 2 6 [-1, 1, 3, 5, 7, -1] = true := by decide
+
+/-- **`HistOk` (the hypothesis of every theorem of sections A–E) from order sequences, wire fencing included**:
+    `CvHistW c y evs` — every accepted step's new weight vectors are `calc_cv_vector` of order sequences satisfying
+    `noJumpCfg c` (`[0-]`: `cvMinus` of a valid path). -/
+theorem histOk_of_cv_history_wf (c : CvCfg) (hs : c.intfs.Pairwise (· < ·)) (hcap : CapOk c) (y : Sys)
+    (evs : List Ev) (h : CvHistW c y evs) : HistOk y evs :=
+  histOk_of_cvW c hs hcap evs y h
+
+/-- the accepted step of the restarted example, read as a `calc_cv_vector` outcome of a wire-fencing configuration
+    (`[1+]` wire fencing, interfaces `0 < 2 < 4`): the path `-1, 1, 3, -1` has weights `(1, 1, 0)` -/
+example : EvCvW { intfs := [0, 2, 4], mv := [false, true], cap := none } (exRAt 3)
+    (.step 0 .acc [[1, 1, 0]] { t := 2, e := 2 }) := by
+  intro _
+  refine ⟨by decide +kernel, ?_⟩
+  intro job hjob pw hpw
+  have hens : (exRAt 3).jobs.map (fun j => j.picked.map (·.ens)) = [[1], [-1]] := by decide +kernel
+  have hj : job.picked.map (·.ens) = [1] := by
+    have := congrArg (fun l => l[0]?) hens
+    simp only [List.getElem?_map, hjob, Option.map_some, List.getElem?_cons_zero, Option.some.injEq] at this
+    exact this
+  obtain ⟨p1, hp⟩ : ∃ p1, job.picked = [p1] := by
+    match hpk : job.picked with
+    | [p1] => exact ⟨p1, rfl⟩
+    | [] => rw [hpk] at hj; simp at hj
+    | _ :: _ :: _ => rw [hpk] at hj; simp at hj
+  rw [hp] at hj hpw
+  simp only [List.map_cons, List.map_nil, List.cons.injEq, and_true] at hj
+  simp only [List.zip_cons_cons, List.zip_nil_right, List.mem_cons, List.not_mem_nil, or_false] at hpw
+  subst hpw
+  refine ⟨fun hneg => by simp only [hj] at hneg; omega, fun _ => ?_⟩
+  refine ⟨[-1, 1, 3, -1], [1, 1, 0], by decide, by decide, ?_⟩
+  show ([1, 1, 0] : List Rat) = ratVec [1, 1, 0]
+  decide +kernel
+
+/-! ### the iteration bound of `sort_trajstate` -/
+
+/-- **`sort_trajstate` ends within `sortMeasure W ≤ n²` iterations** on every state `treat_output` hands to it
+    (any number of workers): the number of `while` iterations the model returns — the tie compares it with the number
+    of swaps of the real `sort_trajstate` on every step — is at most the measure
+    `Σ_slots (slot − number of leading non-zero plus columns of its row)` of the state before sorting. -/
+theorem sort_iterations_bounded {y : Sys} (hr : ReachableR y) (k : Nat) (status : Status)
+    (newW : List (List Rat)) (o : PickOutcome) (hev : EvOk y (.step k status newW o))
+    (job : Job) (hjob : y.jobs[k]? = some job) (s3 : St) (tn : Nat) (pns : List Nat)
+    (hpre : preSort (loop y.s).1 job status newW = .ok (s3, tn, pns)) :
+    ∃ s4 it, sortTrajstate (sortFuel (loop y.s).1) s3 = .ok (s4, it) ∧
+      it ≤ sortMeasure s3.W ∧ sortMeasure s3.W ≤ s3.n * s3.n := by
+  have hi := reach_inv5R hr
+  obtain ⟨hce, hfe, htn, _⟩ := loop_frame y.s
+  have hperm := held_perm_erase y.jobs k job hjob
+  have hc1 : CoreR (loop y.s).1 (heldJob job ++ held (y.jobs.eraseIdx k)) (loop y.s).1.trajNum := by
+    rw [htn]
+    exact (hi.inv.core.congr hce).perm hperm
+  have hf1 : Fam (loop y.s).1 (loop y.s).1.trajNum := by rw [htn]; exact hi.fam.congr hfe
+  have hjmem : job ∈ y.jobs := List.mem_of_getElem? hjob
+  have hvec : status = .acc → ∀ pw ∈ job.picked.zip newW, VecOk (loop y.s).1.n pw.1.ens pw.2 := by
+    intro ha
+    rw [hce.n]
+    exact hev ha job hjob
+  obtain ⟨hc3, hf3, ha3, _, _⟩ := preSort_inv job status newW tn pns hc1 hf1
+    (hi.inv.jobs job hjmem).ensGe (hi.pnum job hjmem) hvec hpre
+  obtain ⟨s4, it, hs, _⟩ := sort_after_preSort (sortFuel (loop y.s).1) hc3 hf3
+    (by unfold sortFuel; rw [ha3.n]; omega)
+  refine ⟨s4, it, hs, ?_, ?_⟩
+  · rw [sortMeasure_eq_mu]
+    exact sortTrajstate_iters_le _ hc3 hf3 hs
+  · rw [sortMeasure_eq_mu]
+    exact mu_le s3 hc3.lenW
+
+/-- the crafted state of section B: measure 8, three iterations -/
+example : sortMeasure exSort6.W = 8 ∧
+    (match sortTrajstate (sortFuel exSort6) exSort6 with | .ok (_, k) => k | .error _ => 99) = 3 := by
+  decide +kernel
+
+/-! ### the restart file: slot order and path counter -/
+
+/-- **The restart file written after a step loads, slot by slot** (`persist` / `restore` are the functions C06's
+    restart-equivalence theorems are about): for a reachable state after the initiation phase and a completing step,
+    `restore (persist s2)` of the state `treat_output` leaves behind (after `sort_trajstate`) succeeds, the image's
+    `active` list IS the sorted slot order, every real slot of the restored state holds the path that slot held,
+    all real slots are idle, and `traj_num` is the one the running state had. -/
+theorem restart_file_same_slots {y y' : Sys} (hr : ReachableR y) (k : Nat) (status : Status)
+    (newW : List (List Rat)) (o : PickOutcome) (hev : EvOk y (.step k status newW o))
+    (hto : y.s.toinitiate = -1) (h : sysStep y (.step k status newW o) = .ok y') :
+    ∃ (s2 : St) (job : Job) (pns : List Nat) (it : Nat), y.jobs[k]? = some job ∧
+      treatOutput (loop y.s).1 job status newW (sortFuel (loop y.s).1) = .ok (s2, pns, it) ∧
+      ∀ (workers tsteps : Nat) (occ : List (List Int)) (ensEng : List (List Nat)),
+        ∃ s'', restore (persist s2) s2.n workers tsteps occ ensEng
+          (fun pn => (s2.wts.lookup pn).getD []) = .ok s'' ∧
+          (∀ e, e < s2.n - 1 → (persist s2).active[e]? = s2.trajs[e]? ∧ s''.trajs[e]? = s2.trajs[e]? ∧
+            entryM s2.W e e ≠ 0) ∧
+          s''.trajNum = s2.trajNum ∧ s''.locks = List.replicate (s2.n - 1) false ++ [true] := by
+  have hi := reach_inv5R hr
+  obtain ⟨_, _, s2, job, pns, it, hjob, htreat, hc2, hf2, _, hdiag, _, _⟩ :=
+    step_preserves5 k status newW o hi hev h
+  refine ⟨s2, job, pns, it, hjob, htreat, fun workers tsteps occ ensEng => ?_⟩
+  obtain ⟨s'', hs''⟩ := restore_loadsR hc2 hf2 (hdiag hto) workers tsteps occ ensEng
+  obtain ⟨_, h2, h3, h4, h5⟩ := restore_slots hc2 workers tsteps occ ensEng _ hs''
+  exact ⟨s'', hs'', fun e he => ⟨h5 e he, h2 e he, hdiag hto e he⟩, h3, h4⟩
+
+example : ReachableR (exRAt 3) ∧ EvOk (exRAt 3) (.step 0 .acc [[1, 1, 0]] { t := 2, e := 2 })
+    ∧ (exRAt 3).s.toinitiate = -1
+    ∧ sysStep (exRAt 3) (.step 0 .acc [[1, 1, 0]] { t := 2, e := 2 }) = .ok (exRAt 4) :=
+  ⟨exR_reachable 3 (by decide), exR_evOk3, by decide +kernel, by decide +kernel⟩
+
+/-- **Path numbers are never reused across restarts.**  A first life `y0 → y` (start state, nothing recorded in
+    `locked`), the restart file of `y` restored to `s'`, a second life `⟨s', []⟩ → y2` and an accepted step there:
+    the restored `traj_num` is the recorded one, it never decreases, and every number `q` the step hands out is
+    `≥ traj_num` of the first life's last state — hence different from every live path, every `traj_data` key
+    (weights, fractions) and every data-file row of the first life.  With `restart_is_start5` (the restored state is
+    a start state again) this extends to any chain of restarts. -/
+theorem path_numbers_fresh_across_restart (y0 y : Sys) (evs : List Ev) (h0 : Start5 y0) (hl : y0.s.locked = [])
+    (hh : HistOk y0 evs) (hr : run y0 evs = .ok y) (workers tsteps : Nat) (occ : List (List Int))
+    (ensEng : List (List Nat)) (s' : St)
+    (h : restore (persist y.s) y.s.n workers tsteps occ ensEng
+      (fun pn => (y.s.wts.lookup pn).getD []) = .ok s')
+    (evs2 : List Ev) (y2 y3 : Sys) (hh2 : HistOk { s := s', jobs := [] } evs2)
+    (hr2 : run { s := s', jobs := [] } evs2 = .ok y2) (k : Nat) (newW : List (List Rat)) (o : PickOutcome)
+    (hev : EvOk y2 (.step k .acc newW o)) (hstep : sysStep y2 (.step k .acc newW o) = .ok y3) :
+    s'.trajNum = y.s.trajNum ∧ y.s.trajNum ≤ y2.s.trajNum ∧
+    ∃ (s2 : St) (job : Job) (pns : List Nat) (it : Nat), y2.jobs[k]? = some job ∧
+      treatOutput (loop y2.s).1 job .acc newW (sortFuel (loop y2.s).1) = .ok (s2, pns, it) ∧
+      ∀ q ∈ pns, y.s.trajNum ≤ q ∧
+        (∀ e, e < y.s.n - 1 → y.s.trajs[e]? ≠ some (some q)) ∧
+        q ∉ y.s.wts.map Prod.fst ∧ q ∉ y.s.frac.map Prod.fst ∧ q ∉ y.s.rows.map (·.1) := by
+  have hi := (run_preserves5 evs h0.inv5 hh hr).1
+  obtain ⟨hstart, _⟩ := restart_is_start5 y0 y evs h0 hl hh hr workers tsteps occ ensEng s' h
+  obtain ⟨_, _, htn, _, _⟩ := restore_slots hi.inv.core workers tsteps occ ensEng _ h
+  have hmono := (run_preserves5 evs2 hstart.inv5 hh2 hr2).2
+  have hmono' : y.s.trajNum ≤ y2.s.trajNum := by
+    have : s'.trajNum ≤ y2.s.trajNum := hmono
+    omega
+  have hreach2 : ReachableR y2 := ⟨_, evs2, hstart, hh2, hr2⟩
+  obtain ⟨_, s2, job, pns, it, hjob, htreat, hfresh⟩ := path_numbers_fresh_restart hreach2 k newW o hev hstep
+  refine ⟨htn, hmono', s2, job, pns, it, hjob, htreat, ?_⟩
+  intro q hq
+  obtain ⟨hge, _, _⟩ := hfresh q hq
+  refine ⟨by omega, ?_, ?_, ?_, ?_⟩
+  · intro e he hcontra
+    obtain ⟨pn, hpn, hlt⟩ := hi.inv.core.live e he
+    rw [hpn] at hcontra
+    simp only [Option.some.injEq] at hcontra
+    omega
+  · intro hm; have := hi.fam.wkeys q hm; omega
+  · intro hm; have := hi.fam.fkeys q hm; omega
+  · intro hm
+    obtain ⟨x, hx, rfl⟩ := List.mem_map.mp hm
+    have := hi.fam.rkeys x hx; omega
+
+/-- the restarted example: first life `exSys → exAt 4` (`traj_num` 5), second life `exSysR → exRAt 3`, the accepted
+    step there hands out number 5 -/
+example : Start5 exSys ∧ exSys.s.locked = [] ∧ run exSys (exEvs.take 4) = .ok (exAt 4)
+    ∧ (exAt 4).s.trajNum = 5 ∧ run exSysR (exEvsR.take 3) = .ok (exRAt 3)
+    ∧ sysStep (exRAt 3) (.step 0 .acc [[1, 1, 0]] { t := 2, e := 2 }) = .ok (exRAt 4)
+    ∧ (exRAt 4).s.trajs = [some 3, some 4, some 5, none] :=
+  ⟨Or.inl ex_init5, by decide +kernel, ex_runs 4 (by decide), by decide +kernel, exR_runs 3 (by decide),
+    by decide +kernel, by decide +kernel⟩
+
+/-! ### `load_paths` with the weights computed from the paths -/
+
+/-- **`load_paths` as the code runs it** (`loadPathsCv`: weights of `paths[i+1]` from `calc_cv_vector`, `(1.0,)` for
+    `paths[0]`) **is `loadPaths` on the computed vectors**. -/
+theorem load_paths_cv_is_loadPaths (c : CvCfg) (s : St) (paths : List CvPath) (f : Nat → List Nat)
+    (hn : 2 ≤ s.n) (hlen : paths.length = s.n - 1)
+    (hcv : ∀ (i : Nat) (pn : Nat) (ops : List Int) (fr : List Rat), paths[i + 1]? = some (pn, ops, fr) →
+      WF.cvVector ops c.intfs c.mv c.cap = .ok (f i)) :
+    loadPathsCv c s paths = loadPaths s (withW f 0 paths) :=
+  loadPathsCv_eq_loadPaths c s paths f hn hlen hcv
+
+/-- **`load_paths` returns iff every initial plus path is valid in its own ensemble** (non-zero own weight, the
+    assertion of `add_traj`); `f i` = what `calc_cv_vector` returns for `paths[i+1]`.
+    Not in `loadPathsCv`: the evaluation of `self.prob` with which the real `add_traj` ends (P is a pure function of the
+    state in the model).  In-family it is defined (`pick_defined`, and the tie runs it on every loaded state); with a HOLE
+    vector among the initial paths the real `inf_retis` can fail its row-sum assertion already at load time — the open
+    finding `C05:hole-weight-vector:prob-assertion`, witness: interfaces 0<2<4<5, `[1+]` wire fencing, `[2+]` path `-1, 5`. -/
+theorem load_paths_cv_loads_iff (c : CvCfg) (n workers tsteps cstep trajNum seed : Nat) (occ : List (List Int))
+    (ensEng : List (List Nat)) (restarted : Bool) (l0 : List (List Nat × List Nat)) (paths : List CvPath)
+    (f : Nat → List Nat) (hn : 2 ≤ n) (hlen : paths.length = n - 1)
+    (hcv : ∀ (i : Nat) (pn : Nat) (ops : List Int) (fr : List Rat), paths[i + 1]? = some (pn, ops, fr) →
+      WF.cvVector ops c.intfs c.mv c.cap = .ok (f i))
+    (hflen : ∀ i, i + 1 < paths.length → (f i).length + 1 = n) :
+    (∃ s', loadPathsCv c (blank n workers tsteps cstep trajNum seed occ ensEng restarted l0) paths = .ok s') ↔
+      ∀ i, i + 1 < paths.length → ∃ w, (f i)[i]? = some w ∧ w ≠ 0 :=
+  loadPathsCv_loads_iff c n workers tsteps cstep trajNum seed occ ensEng restarted l0 paths f hn hlen hcv hflen
+
+def exCvPaths : List CvPath :=
+  [(0, [1, -1, 1], [0,0,0,0]), (1, [-1, 1, -1], [0,0,0,0]), (2, [-1, 1, 3, -1], [0,0,0,0])]
+
+def exCfg3 : CvCfg := { intfs := [0, 2, 4], mv := [false, true], cap := none }
+
+/-- three ensembles, `[1+]` wire fencing: the paths load; with the `[1+]` path replaced by one that does not reach
+    `λ_1 = 2` the assertion of `add_traj` fires -/
+example : (match loadPathsCv exCfg3 exBlank exCvPaths with
+      | .ok s => (s.W, s.trajs, s.locks) | .error _ => ([], [], []))
+      = ([[1,0,0,0],[0,1,0,0],[0,1,1,0],[0,0,0,0]], [some 0, some 1, some 2, none], [false, false, false, true])
+    ∧ loadPathsCv exCfg3 exBlank [(0, [1, -1, 1], []), (1, [-1, 1, -1], []), (2, [-1, 1, -1], [])] = .error .assert := by
+  decide +kernel
+
+theorem vecOk_minus_gen (n : Nat) (hn : 1 ≤ n) : VecOk n (-1) [1] := by
+  have h := (cvMinus_vecOk n hn (-1) (by decide) [0] 0 0 rfl (Int.le_refl _)).2
+  have : ratVec [1] = ([1] : List Rat) := by simp [ratVec]
+  rw [this] at h
+  exact h
+
+/-- **A fresh start from ORDER SEQUENCES is a start state of every theorem of sections A–E, and matchable**:
+    `load_paths` as the code runs it, on `n - 1` initial paths with distinct numbers below `traj_num` whose order
+    sequences satisfy the no-jump condition (strictly increasing interfaces, `CapOk`): if it returns, the state is
+    `Init5` (so `Reachable` / `ReachableR` histories start from it) and its idle block admits a perfect matching. -/
+theorem fresh_start_from_order_sequences (c : CvCfg) (n workers tsteps cstep trajNum seed : Nat)
+    (occ : List (List Int)) (ensEng : List (List Nat)) (restarted : Bool) (paths : List CvPath)
+    (f : Nat → List Nat) (s : St) (hn : 2 ≤ n) (hnc : n = c.intfs.length + 1) (hlen : paths.length = n - 1)
+    (hs : c.intfs.Pairwise (· < ·)) (hcap : CapOk c)
+    (hnd : (paths.map (·.1)).Nodup) (hlt : ∀ p ∈ paths, p.1 < trajNum)
+    (hcv : ∀ (i : Nat) (pn : Nat) (ops : List Int) (fr : List Rat), paths[i + 1]? = some (pn, ops, fr) →
+      WF.cvVector ops c.intfs c.mv c.cap = .ok (f i) ∧ noJumpCfg c ops = true)
+    (h : loadPathsCv c (blank n workers tsteps cstep trajNum seed occ ensEng restarted []) paths = .ok s) :
+    Init5 { s := s, jobs := [] } ∧ Matchable s := by
+  have hbn : (blank n workers tsteps cstep trajNum seed occ ensEng restarted []).n = n := rfl
+  rw [loadPathsCv_eq_loadPaths c _ paths f (by rw [hbn]; exact hn) (by rw [hbn]; exact hlen)
+    (fun i pn ops fr hp => (hcv i pn ops fr hp).1)] at h
+  have hi : Init5 { s := s, jobs := [] } := by
+    apply fresh_start_is_init5 n workers tsteps cstep trajNum seed occ ensEng restarted (withW f 0 paths) s hn
+      (by rw [withW_length]; exact hlen) (by rw [withW_map_fst]; exact hnd) ?_ ?_ h
+    · intro p hp
+      obtain ⟨j, hj⟩ := List.mem_iff_getElem?.mp hp
+      have hjlt : j < paths.length := by
+        have := (List.getElem?_eq_some_iff.mp hj).1
+        rwa [withW_length] at this
+      rcases hpj : paths[j] with ⟨pn, ops, fr⟩
+      have hget : paths[j]? = some (pn, ops, fr) := by rw [List.getElem?_eq_getElem hjlt, hpj]
+      rw [withW_get f paths 0 j pn ops fr hget] at hj
+      simp only [Option.some.injEq] at hj
+      subst hj
+      exact hlt (pn, ops, fr) (List.mem_of_getElem? hget)
+    · intro i hi
+      have hilt : i < paths.length := by rwa [withW_length] at hi
+      rcases hpi : paths[i] with ⟨pn, ops, fr⟩
+      have hget : paths[i]? = some (pn, ops, fr) := by rw [List.getElem?_eq_getElem hilt, hpi]
+      have hw := withW_get f paths 0 i pn ops fr hget
+      rw [List.getElem?_eq_getElem hi, Option.some.injEq] at hw
+      rw [hw]
+      cases i with
+      | zero =>
+        simp only [Nat.zero_add, ↓reduceIte, Nat.cast_zero, Int.zero_sub]
+        exact vecOk_minus_gen n (by omega)
+      | succ j =>
+        simp only [Nat.zero_add, Nat.succ_ne_zero, ↓reduceIte, Nat.add_sub_cancel]
+        rw [show (((j + 1 : Nat) : Int) - 1) = (j : Int) by omega]
+        obtain ⟨h1, h2⟩ := hcv j pn ops fr hget
+        exact (cvVector_vecOk_of_noJump n (j : Int) (by omega) c ops (f j) hnc hs hcap h2 h1).1
+  exact ⟨hi, ⟨hi.inv5.fam.nonneg hi.inv5.inv.core, hi.inv5.fam.perm⟩⟩
+
+example : loadPathsCv exCfg3 exBlank exCvPaths = .ok
+    (match loadPathsCv exCfg3 exBlank exCvPaths with | .ok s => s | .error _ => exBlank)
+    ∧ noJumpCfg exCfg3 [-1, 1, -1] = true ∧ noJumpCfg exCfg3 [-1, 1, 3, -1] = true := by
   decide +kernel
 
 end Infretis.C05
